@@ -255,5 +255,6 @@ pub fn run(ctx: &Ctx) -> i32 {
             one_upload(r, &mut rng, shard, &schema, &pools, quick);
         }
     });
+    crate::also_in_release_build(&mut report, "C11", ctx);
     report.finish()
 }
